@@ -218,6 +218,8 @@ def agent_cases(chk):
     ''' The agent over several contacts: a real tcpcl.agent.Agent with real ContactHandlers on simulated sockets;
     random histories of bind / establish / contact terminates / contact closes / shutdown() / stop(), compared
     with the Lean agent model op by op, plus independent monitors. '''
+    import socket as _socket
+    import types as _types
     import tcpcl.agent as tagent
     from tcpcl_util import GLib, FakeSock
     LOOP = GLib.LOOP
@@ -231,6 +233,30 @@ def agent_cases(chk):
         stops = []
         ag.set_on_stop(lambda: stops.append(True))
         socks, hdls = [], []
+        made, listening = [], []
+
+        class FakeTcp(FakeSock):
+            ''' what socket.socket() returns inside tcpcl.agent: connect/bind/listen/accept are recorded '''
+            def __init__(self, *_a, **_k):
+                FakeSock.__init__(self, 't%d' % len(made))
+                self.accepted = []
+                made.append(self)
+
+            def bind(self, addr):
+                self.bound = addr
+
+            def connect(self, addr):
+                self.peername = addr
+
+            def listen(self, n):
+                self.backlog = n
+                self.__dict__.pop('accept', None)    # FakeSock keeps its send limit in an attribute of that name
+
+            def accept(self):
+                c = FakeSock('a%d' % len(self.accepted), peername=('192.0.2.7', 41000 + len(self.accepted)))
+                self.accepted.append(c)
+                return c, c.peername
+        tagent.socket = _types.SimpleNamespace(**dict(vars(_socket), socket=FakeTcp))
 
         def drain(h):
             for _ in range(200):
@@ -268,12 +294,49 @@ def agent_cases(chk):
             ret, raised = None, None
             op = {'op': k}
             if k == 'bind':
-                sk = FakeSock('c%d' % len(socks))
-                h = ag._bind_handler(config=cfg, sock=sk, toaddr=('192.0.2.1', 4556))
+                # a new contact comes into being the way the agent makes them: an outgoing connect(), an accepted
+                # incoming connection on a listening socket, or (as before) a handler bound directly
+                how = rng.choice(['connect', 'accept', 'direct'])
+                nh = len(ag._handlers)
+                sk = h = None
+                try:
+                    if how == 'connect':
+                        made[:] = []
+                        path = ag.connect('192.0.2.1', 4556)
+                        h = ag.handler_for_path(path)
+                        sk = made[-1]
+                    elif how == 'accept':
+                        if not listening:
+                            made[:] = []
+                            ag.listen('192.0.2.5', 4556)
+                            listening.append(made[-1])
+                        src = [s2 for s2 in LOOP.pending('io') if getattr(s2.func, '__name__', '') == '_accept'
+                               and getattr(s2.func, '__self__', None) is ag]
+                        if not src:
+                            bad.append(('C09:agent-listen-installs-no-watch', 'Agent.listen() left no IO watch for incoming connections'))
+                        else:
+                            LOOP.fire(src[0])
+                            sk = listening[0].accepted[-1] if listening[0].accepted else None
+                            h = ag._handlers[-1] if len(ag._handlers) > nh else None
+                    else:
+                        sk = FakeSock('c%d' % len(socks))
+                        h = ag._bind_handler(config=cfg, sock=sk, toaddr=('192.0.2.1', 4556))
+                        h.start()
+                except Exception as err:
+                    bad.append(('C09:agent-%s-raises-%s' % (how, type(err).__name__), 'making a contact by %s raised %r' % (how, err)))
+                if h is None or sk is None:
+                    if not bad:
+                        bad.append(('C09:agent-%s-made-no-contact' % how, 'making a contact by %s produced no handler' % how))
+                    break
+                if how != 'accept':
+                    # an outgoing contact which was started writes its contact header (an accepted one waits for the peer's)
+                    drain(h)
+                    if not bytes(sk.sent).startswith(b'dtn!'):
+                        bad.append(('C09:agent-contact-not-started', 'the outgoing contact made by %s was never started: no contact header is written' % how))
+                        break
                 socks.append(sk)
                 hdls.append(h)
                 terms_before.append(0)
-                h.start()
                 op['id'] = len(socks) - 1
             else:
                 i = rng.randrange(len(hdls))
@@ -337,6 +400,17 @@ def agent_cases(chk):
                 cut = [i for i in closed_now if sess_before.get(i)]
                 if cut:
                     bad.append(('C09:agent-closed-established-contact', 'shutdown() closed the established contacts %s instead of asking them to terminate' % cut))
+            # the agent's own view of its contacts: get_connections() lists exactly the contacts which are open
+            try:
+                listed = sorted(str(p_) for p_ in ag.get_connections())
+            except Exception as err:
+                listed = None
+                bad.append(('C09:agent-get-connections-raises-%s' % type(err).__name__, 'Agent.get_connections() raised %r' % err))
+            if listed is not None:
+                want = sorted(str(hdls[i].object_path) for i, sk in enumerate(socks) if not sk.closed)
+                if listed != want:
+                    bad.append(('C09:agent-connection-list-wrong', 'after %s: get_connections() lists %s, the open contacts are %s'
+                                % (k, listed, want)))
             if k in ('contact_closed', 'contact_term', 'establish', 'bind'):
                 other = [i for i in closed_now if not (k == 'contact_closed' and i == op.get('id'))]
                 if other:
